@@ -3,18 +3,29 @@ package main
 import (
 	"vh/core"
 	"vh/fn"
+	"vh/sim"
 )
 
-func one(e core.Engine) func() []core.Engine { return func() []core.Engine { return []core.Engine{e} } }
+func one(e ...core.Engine) func() []core.Engine { return func() []core.Engine { return e } }
+
+var (
+	profC01 = sim.Profile{Name: "c01", Steps: 160, CanaryProb: 0.5, Hostile: 3, Churn: 3, Edits: 1.5, Holds: 0.3, Commands: 0.3, DupPods: 4, Affinity: -1, MaxNodes: 8, Converge: false}
+	profC02 = sim.Profile{Name: "c02", Steps: 80, CanaryProb: 0.5, Hostile: 1.5, Churn: 1.5, Edits: 1.5, Holds: 0.7, Commands: 0.5, DupPods: 0.5, Affinity: -1, MaxNodes: 6, Converge: true, OldDS: 0.15}
+)
 
 func registry() core.Registry {
 	return core.Registry{
+		"C01": one(&sim.Sim{Prop: "C01", P: profC01, NQuick: 300, NThor: 6000, FloorsQ: map[string]int{}}),
+		"C02": one(&sim.Sim{Prop: "C02", P: profC02, NQuick: 200, NThor: 4000, FloorsQ: map[string]int{}}),
 		"C03": one(&fn.C03{}),
 		"C05": one(&fn.C05{}),
 		"C06": one(&fn.C06{}),
+		"C09": one(&fn.C09{}),
 		"C10": one(&fn.C10{}),
 		"C14": one(&fn.C14{}),
 		"C15": one(&fn.C15{}),
+		"C18": one(&fn.C18{}),
+		"C20": one(&fn.C20{}),
 	}
 }
 
